@@ -13,6 +13,8 @@ mod c11;
 mod c12;
 mod c13;
 mod c20;
+mod prio3;
+mod rec;
 mod codec;
 mod util;
 
@@ -38,6 +40,7 @@ fn main() {
     }
     let mut out = util::Out::new();
     match prop {
+        "C01" | "C02" | "C17" | "C18" => prio3::run(&mut out, thorough, seed, prop),
         "C05" => c05::run(&mut out, thorough, seed),
         "C06" => c06::run(&mut out, thorough, seed),
         "C09" => c09::run(&mut out, thorough, seed),
